@@ -159,6 +159,15 @@ def fmt_traverse(fn, reraise_missing=False):
         return fmt_exc(e)
 
 
+class BytesSub(bytes):
+    """a bytes subclass (as hexbytes.HexBytes is): accepted wherever bytes are"""
+
+
+def sub_bytes(b, selector):
+    """the same byte string, as a plain bytes object or as an instance of a bytes subclass (deterministic in the case)"""
+    return BytesSub(b) if selector % 3 == 0 else b
+
+
 class Boom(Exception):
     """raised by the harness inside a squash_changes block"""
 
@@ -273,7 +282,7 @@ class HexRunner:
         if kind == "set":
             v = bytes.fromhex(op[2])
             raw = raw_before and raw_before + (k, v)
-            out = self.call("hx.set %s %s %s" % (tg, hx(k), hx(v)), lambda: trie.set(k, v), raw)
+            out = self.call("hx.set %s %s %s" % (tg, hx(k), hx(v)), lambda: trie.set(sub_bytes(k, len(v)), sub_bytes(v, len(k) + len(v))), raw)
         elif kind == "setitem":
             v = bytes.fromhex(op[2])
             raw = raw_before and raw_before + (k, v)
@@ -281,7 +290,7 @@ class HexRunner:
         elif kind == "sete":
             v = b""
             raw = raw_before and raw_before + (k, b"")
-            out = self.call("hx.set %s %s -" % (tg, hx(k)), lambda: trie.set(k, b""), raw)
+            out = self.call("hx.set %s %s -" % (tg, hx(k)), lambda: trie.set(k, sub_bytes(b"", len(k))), raw)
         elif kind == "del":
             v = b""
             raw = raw_before and raw_before + (k, None)
